@@ -112,7 +112,7 @@ func checkC20(c *Ctx) {
 	// R3 eirp
 	root := P.Pkg("")
 	ev2 := tables.NewEvaluator(root)
-	et, eobj := lookupVar("", ev2, "eirpTable")
+	et, eobj := lookupVar("", ev2, eirpTableName(P))
 	esl, ok := et.(*tables.Slice)
 	if eobj == nil || !ok {
 		r.Unknown("R3.eirp", "lorawan.eirpTable", "", "literal table, never written after init", tables.Show(et))
@@ -357,7 +357,7 @@ func c20EIRPEncode(c *Ctx, ev *tables.Evaluator, tbl []float64) {
 		return
 	}
 	var g *ssa.Global
-	if m, ok := fn.Pkg.Members["eirpTable"].(*ssa.Global); ok {
+	if m, ok := fn.Pkg.Members[eirpTableName(P)].(*ssa.Global); ok {
 		g = m
 	}
 	// (a) uses of the parameter
@@ -546,4 +546,33 @@ func firstN(xs []string, n int) string {
 		xs = xs[:n]
 	}
 	return strings.Join(xs, "; ")
+}
+
+// eirpTableName: the package-level table the exported decoder GetTXParamSetupEIRP indexes (eirpTable on the pinned
+// tree; the name is not part of the API).
+func eirpTableName(P *load.Program) string {
+	fn := P.SSAFunc("", "GetTXParamSetupEIRP")
+	if fn == nil {
+		return "eirpTable"
+	}
+	for _, b := range fn.Blocks {
+		for _, ins := range b.Instrs {
+			var base ssa.Value
+			switch x := ins.(type) {
+			case *ssa.IndexAddr:
+				base = x.X
+			case *ssa.Index:
+				base = x.X
+			default:
+				continue
+			}
+			if ld, ok := base.(*ssa.UnOp); ok {
+				base = ld.X
+			}
+			if g, ok := base.(*ssa.Global); ok && g.Pkg == fn.Pkg {
+				return g.Name()
+			}
+		}
+	}
+	return "eirpTable"
 }
